@@ -103,7 +103,8 @@ func c40eDumpText(d []c40eKV, withRev bool) string {
 	return sb.String()
 }
 
-// values with their wall-clock fields removed, for comparing two separate runs
+// values with their wall-clock fields removed and map-ordered encodings decoded, for
+// comparing two separate runs
 func c40eNormalise(key, val string) string {
 	switch {
 	case strings.HasSuffix(key, "/config"):
@@ -111,6 +112,12 @@ func c40eNormalise(key, val string) string {
 		if proto.Unmarshal([]byte(val), c) == nil {
 			c.CreatedAt = ""
 			return c40CoqCfgPB(c) + fmt.Sprintf(" name=%q", c.Name)
+		}
+	case strings.HasPrefix(key, "/kafscale/consumers/") && strings.HasSuffix(key, "/metadata"):
+		// protobuf map fields (group members) are marshalled in random order
+		g := &metadatapb.ConsumerGroup{}
+		if proto.Unmarshal([]byte(val), g) == nil {
+			return c40CoqGroupPB(g)
 		}
 	case strings.Contains(key, "/offsets/"):
 		var rec map[string]any
